@@ -529,6 +529,14 @@ def prepare(ctx, res, prop, progs, quick):
     return items, stats
 
 
+def interleave(groups):
+    out, k = [], 0
+    while any(k < len(gr) for gr in groups):
+        out += [gr[k] for gr in groups if k < len(gr)]
+        k += 1
+    return out
+
+
 def run_one(prog, g, exe, cfg, evaluate):
     """one run of a compiled program + evaluation.  {'n', 'fails', 'dis', 'crash', 'oneoff', 'stats'}"""
     r = {'n': 0, 'fails': [], 'dis': [], 'crash': None, 'oneoff': None, 'stats': {}}
